@@ -807,7 +807,8 @@ func c09CheckAmount(t *rapid.T, c *vk.Case, cs *c09Case, where string, r int, v 
 		return c.Violation(t, pre+"lse-cpu-not-charged-at-request", "%s", detail())
 	}
 	if c09Exceeds(v, b.strict) {
-		return c.Violation(t, pre+"no-metric-pod-not-charged-at-request:"+b.policy, "%s", detail())
+		// one defect class per (level, policy): the resource is in the message, not in the signature
+		return c.Violation(t, where+":no-metric-pod-not-charged-at-request:"+b.policy, "%s", detail())
 	}
 	return false
 }
@@ -1089,17 +1090,14 @@ func TestVerifC09BatchMonotone(t *testing.T) {
 		c.Class("raise:" + m.kind)
 		c.Class("policy:cpu=" + base.effPolicy(0) + ",mem=" + base.effPolicy(1))
 		sig := "monotone:" + m.kind
-		if m.kind == "drop-metric" {
-			sig = "charge-at-request:metric-deleted"
-		}
 		decreased := false
 		cmp := func(where string, zi, r int, before, after *big.Rat) bool {
 			if after.Cmp(new(big.Rat).Add(before, c09Tol)) > 0 {
-				pol := ""
-				if m.kind == "drop-metric" {
-					pol = ":" + base.effPolicy(r)
+				full := sig + ":" + where + "-" + c09ResName[r] + "-raised"
+				if m.kind == "drop-metric" { // same defect class as in batchBound
+					full = where + ":no-metric-pod-not-charged-at-request:" + base.effPolicy(r)
 				}
-				return c.Violation(t, sig+":"+where+"-"+c09ResName[r]+"-raised"+pol,
+				return c.Violation(t, full,
 					"%s: %s(%d) %s went UP from %s to %s (policy %s)\nbefore items=%s\nafter  items=%s\nbase case=%s\nraised case=%s",
 					m.desc, where, zi, c09ResName[r], c09F(before), c09F(after), base.effPolicy(r), pb.raw, pm.raw, base, mut)
 			}
